@@ -100,3 +100,29 @@ Fixpoint c05y_from (reqs : list (string * request)) (d : db) (i : nat) (tr : lis
   | (_, ob) :: tr' => c05y_from reqs (last_snap d ob) (S i) tr'
   end.
 Definition C05y_mon (tr : list (directive * list obs)) : list viol := c05y_from [] db0 0 tr.
+
+(* 504 / 505 (per commit; evaluated): a registration that is converted must leave a task that can still be
+   dispatched: the task that carries its id, if it is new in this commit, is not already finished.
+   504: it is born finished although only ONE completion of its promise ran in the commit (the conversion itself
+        swallowed the wake-up); 505: several completions of that promise ran in the commit and a losing one finished
+        the winner's new task (DESIGN D18, known finding of C08). *)
+Definition t_done (t : task) : bool := (t_state t =? TCompleted) || (t_state t =? TTimedout).
+Definition completions_of (pid : string) (cmds : list command) : nat :=
+  List.length (filter (fun c => match c with UpdatePromise u => String.eqb (up_id u) pid | _ => false end) cmds).
+
+Definition c05w_exec (cmds : list command) (before after : db) : list Z :=
+  flat_map (fun c =>
+              if existsb (callback_eqb c) (callbacks after) then []
+              else match find (fun t => String.eqb (t_id t) (cb_id c)) (tasks after) with
+                   | Some t =>
+                     if existsb (fun t0 => String.eqb (t_id t0) (cb_id c)) (tasks before) then []
+                     else if t_done t then (if Nat.leb 2 (completions_of (cb_pid c) cmds) then [505] else [504]) else []
+                   | None => []
+                   end) (callbacks before).
+
+Definition c05w_chk : checker := fun now d dir ob =>
+  match dir with
+  | DExec _ => flat_map (fun o => match o with OExec txns _ snap => c05w_exec (List.concat txns) d snap | _ => [] end) ob
+  | _ => []
+  end.
+Definition C05w_mon := mon c05w_chk.
